@@ -576,6 +576,10 @@ fn observe_param(p: ParamValue<'_>, conv: bool) -> PObs {
                     let x: $t = <$t>::from(v);
                     $wrap(x)
                 }));
+                if r.is_err() {
+                    // a conversion panic is an observation, not the run's panic
+                    let _ = crate::core::take_panic();
+                }
                 out.push(($name, r.map_err(panic_msg)));
             }};
         }
